@@ -155,6 +155,32 @@ impl Prop for C08 {
         // asking the same instance again must give the same matrix
         let dm = fw.distances();
         ensure!(*dm == first, "a second distances() call on the same instance returned a different matrix");
+        if n <= 12 {
+            // clones, and clone_from targets built over another digraph
+            let other = reprs::build_weighted(&WDg { order: n + 2, arcs: (0..n + 1).map(|v| (v, v + 1, 2_isize)).collect() });
+            for used_source in [false, true] {
+                let mut src = FloydWarshall::new(&g);
+                if used_source {
+                    let _ = src.distances();
+                }
+                let cl = src.clone().distances().clone();
+                ensure!(cl == first, "a clone of a {} instance returned a different matrix", if used_source { "used" } else { "fresh" });
+                for used_target in [false, true] {
+                    let mut t = FloydWarshall::new(&other);
+                    if used_target {
+                        let _ = t.distances();
+                    }
+                    t.clone_from(&src);
+                    let r = t.distances().clone();
+                    ensure!(
+                        r == first,
+                        "clone_from onto a {} instance built over another digraph from a {} instance returned {r:?}, a fresh instance {first:?}",
+                        if used_target { "used" } else { "fresh" },
+                        if used_source { "used" } else { "fresh" }
+                    );
+                }
+            }
+        }
         let mut unreachable_pair = false;
         let mut long_walk = false;
         let hop_model = m.unweighted();
